@@ -230,9 +230,13 @@ pub fn ints() -> Vec<i128> {
     vec![0, 1, -1, 9, -9, 10, -10, 255, i64::MAX as i128, i64::MIN as i128, u64::MAX as i128, i128::MAX, i128::MIN, 1234567890123456789012345678]
 }
 pub fn floats() -> Vec<f64> {
-    vec![0.0, 1.0, -1.0, 0.5, -0.5, 0.1 + 0.2, 1e21, 1e-7, f64::MAX, f64::MIN_POSITIVE, 123456789.123456789, -2.5e-3, 100.0, 1.5e300]
+    // both signs x {zero, ordinary, needing 17 digits, tiny, huge, subnormal, the extremes}
+    vec![
+        0.0, 1.0, -1.0, 0.5, -0.5, 0.1 + 0.2, 1e21, 1e-7, f64::MAX, f64::MIN_POSITIVE, 123456789.123456789, -2.5e-3, 100.0, 1.5e300,
+        -(0.1 + 0.2), -1e21, -1e22, 1e22, -1e-7, -2.5e-9, 1e-6, -1e-6, 9.999e-7, -9.999e-7, 5e-324, -5e-324, -f64::MAX, -f64::MIN_POSITIVE, -1.5e300, -123456789.123456789,
+    ]
 }
-pub const STR_ALPHABET: &[&str] = &["a", " ", ",", ":", "{", "}", "[", "]", "\u{e9}", "n", "t"];
+pub const STR_ALPHABET: &[&str] = &["a", " ", ",", ":", "{", "}", "[", "]", "\u{e9}", "n", "t", "\u{20ac}", "\u{1F642}"];
 pub fn strings(maxlen: usize) -> Vec<String> {
     let mut v = Vec::new();
     enumerate::sequences(STR_ALPHABET.len(), maxlen, &mut |idx| v.push(enumerate::concat_strs(STR_ALPHABET, idx)));
@@ -247,7 +251,9 @@ fn node(depth: usize) -> Option<VNode> {
     if depth == 0 {
         return None;
     }
-    let mut n = VNode { name: format!("d{}", depth), num: depth as i128 * 7, child: None };
+    // the strings inside nested objects carry structural and 2-, 3-, 4-byte characters too
+    let suffix = ["", " ,:{}[]", "\u{e9}", "\u{20ac}", "\u{1F642}"][depth % 5];
+    let mut n = VNode { name: format!("d{}{}", depth, suffix), num: depth as i128 * 7, child: None };
     n.child = node(depth - 1).map(Box::new);
     Some(n)
 }
